@@ -11,7 +11,7 @@ CONSTANTS
   AllowNTL = TRUE
   TwoWrites = TRUE
   AllowNil = FALSE
-INVARIANT StateInv
+INVARIANT StateInv NoFuture
 PROPERTY Refines
 ACTION_CONSTRAINT Emit
 VIEW View
